@@ -10,6 +10,7 @@ from sa.rulekit import (nodes_where, node_calls, node_roots, nodes_calling, retu
                         nodes_writing_attr, must_pass, check_must_pass, is_const, written_value,
                         expr_is, kw)
 from sa.report import path_witness
+from sa.cfg import canon_fact, decompose
 from rules.simloop import SimLoop, SIMULATE
 from rules.wiring import wiring_rules
 
@@ -186,6 +187,8 @@ def run(ck):
                                         [norm(a) for a in c.args] == ['self'] for c in node_calls(n)))
     check_must_pass(ck, R6, f"{so.fid} :: enqueue after write", so, gs, ws[0], enq, [gs.exit],
                     "notification of the simulator after an output change")
+    from rules.shared import enqueue_before_anything_can_fail
+    enqueue_before_anything_can_fail(ck, R6)
     vparam = so.node.args.args[1].arg
     ok = expr_is(ck, so.fid, 'M0', ws[0], written_value(ws[0], '_output'), vparam)
     ck.ob(R6, f"{so.fid} :: stored value", ok, "the parameter is what is stored" if ok else
@@ -237,6 +240,8 @@ def run(ck):
     undef = nodes_where(ge, lambda n: isinstance(n.ast, ast.Raise) and
                         any('UNDEF' in t and p for t, p in ge.guard_texts(n)), kinds=('stmt',))
     ck.ob(R7, f"{eb.fid} :: UNDEF refused", bool(undef), "an UNDEF result raises", eb, eb.node)
+    from rules.shared import undef_refused_everywhere
+    undef_refused_everywhere(ck, R7)
 
     # ------------------------------------------------------------------ R01.8
     wiring_rules(ck, R8)
@@ -392,11 +397,13 @@ def run(ck):
     bad = None
     n = 0
     for arity in range(0, 5):
-        for vec in itertools.product((0, 1), repeat=arity):
+        # 0 = a false input; 1 and 2 = two different true inputs (the result may depend on the
+        # truth of the inputs only, not on their numeric value: outputs of Counters are inputs too)
+        for vec in itertools.product((0, 1, 2), repeat=arity):
             got = DictInterp(R12, {fnode.args.args[0].arg: tuple(vec)}).ev(fnode.body)
             n += 1
             ck.abstract_cases += 1
-            if got is not (sum(vec) % 2 == 1) and bad is None:
+            if got is not (sum(1 for x in vec if x) % 2 == 1) and bad is None:
                 bad = (vec, got)
     ck.ob(R12, f"{xin.fid} :: parity", bad is None,
           f"Xor = odd number of true inputs on all {n} truthiness vectors of 0..4 inputs (bounded "
